@@ -39,18 +39,22 @@ Definition item_ok (it : item) : bool :=
   | _ => true
   end.
 
-Lemma ref_def_ok : forall t,
+Lemma ref_def_ok : forall t, sep_tok t = false ->
   match ref_kind t with
   | KValue => atom_ok (ref_def t) | KPrefix => pre_ok (ref_def t) | KSuffix => suf_ok (ref_def t)
   | KBinary => bin_ok (ref_def t) | _ => true
   end = true.
-Proof. intros t. destruct t; reflexivity. Qed.
+Proof. intros t H. destruct t; try reflexivity; discriminate H. Qed.
 
-Lemma items_of_ok : forall toks i prev sp its,
+Lemma items_of_ok : forall toks i prev sp its, no_separators toks = true ->
   items_of toks i prev sp = Some its -> forallb item_ok its = true.
 Proof.
-  induction toks as [|t r IH]; intros i prev sp its H; cbn [items_of] in H; [injection H as <-; reflexivity|].
-  pose proof (ref_def_ok t) as Hd.
+  induction toks as [|t r IH]; intros i prev sp its Hns H; cbn [items_of] in H; [injection H as <-; reflexivity|].
+  cbn [no_separators forallb] in Hns. apply andb_true_iff in Hns. destruct Hns as [Hst Hns]. apply negb_true_iff in Hst.
+  fold (no_separators r) in Hns.
+  assert (IH' : forall i prev sp its, items_of r i prev sp = Some its -> forallb item_ok its = true)
+    by (intros; eapply IH; eauto). clear IH. rename IH' into IH.
+  pose proof (ref_def_ok t Hst) as Hd.
   destruct (ref_kind t) eqn:Hk; try discriminate H; try (eapply IH; exact H).
   all: destruct (items_of r (S i) _ false) as [rest|] eqn:Hr; [|discriminate H]; injection H as <-;
        rewrite forallb_app; cbn [forallb item_ok]; rewrite (IH _ _ _ _ Hr);
@@ -84,17 +88,17 @@ Proof.
       destruct (IH p None r arg r' Hr I E) as [A B].
       eapply IH; [exact B | | exact H]. cbn. rewrite Hd, A. reflexivity.
     + cbn [forallb item_ok] in Hits.
-      destruct (climb f INF None r) as [[inner [|[d0 i0|d0 i0|d0 i0|d0 i0|b0 i0|b0 i0] r']]|] eqn:E; try discriminate.
+      destruct (climb f (blimit b) None r) as [[inner [|[d0 i0|d0 i0|d0 i0|d0 i0|b0 i0|b0 i0] r']]|] eqn:E; try discriminate.
       destruct (bkind_eqb b b0); [|discriminate].
-      destruct (IH INF None r inner _ Hits I E) as [A B]. cbn [forallb item_ok] in B.
+      destruct (IH (blimit b) None r inner _ Hits I E) as [A B]. cbn [forallb item_ok] in B.
       eapply IH; [exact B | | exact H]. exact A.
 Qed.
 
-Lemma pratt_shape : forall toks R, pratt toks = Some R -> rshape R = true.
+Lemma pratt_shape : forall toks R, no_separators toks = true -> pratt toks = Some R -> rshape R = true.
 Proof.
-  intros toks R H. unfold pratt in H. destruct (items_of toks 0 None false) as [its|] eqn:Hi; [|discriminate].
+  intros toks R Hns H. unfold pratt in H. destruct (items_of toks 0 None false) as [its|] eqn:Hi; [|discriminate].
   destruct (climb (4 * length its + 8) INF None its) as [[t [|c rc]]|] eqn:Hc; try discriminate. injection H as <-.
-  exact (proj1 (climb_shape _ INF None its t [] (items_of_ok _ _ _ _ _ Hi) I Hc)).
+  exact (proj1 (climb_shape _ INF None its t [] (items_of_ok _ _ _ _ _ Hns Hi) I Hc)).
 Qed.
 
 Lemma rshape_shift : forall a t, rshape (shift_rtree a t) = rshape t.
@@ -369,7 +373,7 @@ Proof.
     + eapply IH; exact H.
     + destruct (ref_rank d) as [p|]; [|discriminate].
       destruct (climb f p None r) as [[arg r']|]; [|discriminate]. eapply IH; exact H.
-    + destruct (climb f INF None r) as [[inner [|[d0 i0|d0 i0|d0 i0|d0 i0|b0 i0|b0 i0] r']]|]; try discriminate.
+    + destruct (climb f (blimit b) None r) as [[inner [|[d0 i0|d0 i0|d0 i0|d0 i0|b0 i0|b0 i0] r']]|]; try discriminate.
       destruct (bkind_eqb b b0); [|discriminate]. eapply IH; exact H.
 Qed.
 
@@ -421,7 +425,7 @@ Proof.
       destruct (climb f p None r) as [[arg r']|] eqn:Er; [|discriminate].
       pose proof (IH _ _ _ _ _ Er I) as Harg.
       eapply IH; [exact H|]. split; [exact Harg | exact I].
-    + destruct (climb f INF None r) as [[inner [|[d0 i0|d0 i0|d0 i0|d0 i0|b0 i0|b0 i0] r']]|] eqn:Er; try discriminate.
+    + destruct (climb f (blimit b) None r) as [[inner [|[d0 i0|d0 i0|d0 i0|d0 i0|b0 i0|b0 i0] r']]|] eqn:Er; try discriminate.
       destruct (bkind_eqb b b0); [|discriminate].
       pose proof (IH _ _ _ _ _ Er I) as Hin.
       eapply IH; [exact H|]. split; [exact Hin | exact I].
@@ -473,15 +477,15 @@ Proof.
 Qed.
 
 (* ---- the theorem ---- *)
-Theorem operator_expression_balanced : forall toks R, pratt toks = Some R ->
+Theorem operator_expression_balanced : forall toks R, no_separators toks = true -> pratt toks = Some R ->
   exists root nodes t,
     parse toks = Ok (root, nodes) /\ Compile.tree_of nodes root = Some t /\
     drops_arms t = false /\
     (has_chain_no_else t = false -> has_chain_early_else t = false -> has_reapply_pending t = false ->
      balanced t = true).
 Proof.
-  intros toks R H. destruct (pratt_tree_of toks R H) as (Tn & ns & Hp & Ht & _ & _ & E).
-  pose proof (pratt_shape toks R H) as Hs. pose proof (pratt_leftok toks R H) as Hl.
+  intros toks R Hns H. destruct (pratt_tree_of toks R H) as (Tn & ns & Hp & Ht & _ & _ & E).
+  pose proof (pratt_shape toks R Hns H) as Hs. pose proof (pratt_leftok toks R H) as Hl.
   rewrite E, rshape_shift in Hs. rewrite E, leftok_shift in Hl.
   pose proof (leftok_drops Tn Hs Hl) as Hd.
   exists (nid Tn), ns, (img Tn). split; [exact Hp|]. split; [exact Ht|]. split; [exact Hd|].
